@@ -110,10 +110,12 @@ def from_plan(shape, feats, i, for_codec=True):
     if shape == "struct_unit":
         dd = decl("struct", name, "unit", (), (), tparams=[], lifetimes=[], capture=capture, capture_text=ctext, replace=replace, docs=docs, mods=mods, inst=[], **style)
         dd["crate_path"] = "crate_path" in F; dd["rev_attrs"] = "rev_attrs" in F
+        if "foreign_attrs" in F: dd["item_attrs"] = ["#[repr(C)]", "#[allow(dead_code)]", "#[must_use]"]
         return dd
     if shape != "enum":
         dd = decl("struct", name, "named" if named else "unnamed", fs, (), tparams, lifetimes, capture, replace, docs, mods, inst, ctext, consts=consts, **style)
         dd["doc_noise"] = noise; dd["crate_path"] = "crate_path" in F; dd["rev_attrs"] = "rev_attrs" in F
+        if "foreign_attrs" in F: dd["item_attrs"] = ["#[repr(C)]", "#[allow(dead_code)]", "#[non_exhaustive]"]
         return dd
     unn = [dict(f, name=[], rename=[]) for f in fs]
     vs = [variant("A", docs=([" variant doc"] if "docs" in F else ())),
@@ -131,7 +133,19 @@ def from_plan(shape, feats, i, for_codec=True):
     if "codec_index" in F and "discriminant" in F: vs.append(variant("Z", "unit", cindex=9, discr=77))
     dd = decl("enum", name, "named", (), vs, tparams, lifetimes, capture, replace, docs, mods, inst, ctext, consts=consts, **style)
     dd["doc_noise"] = noise; dd["crate_path"] = "crate_path" in F; dd["rev_attrs"] = "rev_attrs" in F
+    if "foreign_attrs" in F: dd["item_attrs"] = ["#[allow(dead_code)]", "#[non_exhaustive]"]      # (an enum with data variants and discriminants already carries #[repr(u8)])
     return dd
+
+def newtype_decls(i0):
+    """single-member structs marked #[repr(transparent)] (named and unnamed member, one generic): the layout attribute
+    says nothing about type information - the newtype is a type of its own, next to its member type"""
+    out = []
+    for k, (named, ty, tps, inst) in enumerate([(False, U32, [], []), (True, STR, [], []), (False, vec(P("T")), [("T", False)], [U16])]):
+        d = decl("struct", "N%d" % (i0 + k), "named" if named else "unnamed", [field("inner" if named else None, ty, docs=[" the only member"])], (), tps, [], "absent", (), [" a newtype"], [], inst)
+        d["item_attrs"] = ["#[repr(transparent)]"] if k != 1 else ["#[allow(dead_code)]", "#[repr(transparent)]"]
+        d["pair_member"] = True
+        out.append(d)
+    return out
 
 # ------------------------------------------------------------------------------------------------
 # seeded random declarations
@@ -303,7 +317,11 @@ def decl_src(d, with_codec):
 
 def decl_src0(d, with_codec):
     s = docs_src(d["docs"], "", d.get("doc_attr"))
+    # attributes of OTHER tools on the item (layout, lints, stability): the derive must not read anything into them
+    ia = d.get("item_attrs", [])
+    s += "".join(a + "\n" for a in ia[:1])
     s += "#[derive(TypeInfo%s)]\n" % (", Encode" if with_codec else "")
+    s += "".join(a + "\n" for a in ia[1:])
     attrs = []
     skipped = [p["name"] for p in d["tparams"] if p["skip"]]
     if skipped: attrs.append("skip_type_params(" + ", ".join(skipped) + ")")
@@ -463,6 +481,9 @@ def program(decls, seed, with_values, nvals):
         ft = "vec![" + ", ".join("vec![" + ", ".join(exp(f) for f in g) + "] as Vec<String>" for g in groups) + "]"
         pt = "vec![" + ", ".join("dv::t::<%s>()" % subst[p["name"]] for p in d["tparams"]) + "] as Vec<String>"
         main.append("    o.derived::<%s>(%d, %s, %s, module_path!());" % (ty, d["id"], ft, pt))
+        if d.get("pair_member"):      # a newtype and its member type in one registry: two types, two entries
+            f0 = d["fields"][0]
+            main.append("    o.pair::<%s, %s>(%d);" % (ty, src(f0["ty"], d, subst, True, selfpath=full), d["id"]))
         if d.get("consts"):      # the same declaration instantiated with the default constant: another type, registered next to the first
             inst0 = ["'static"] * len(d["lifetimes"]) + [subst[p["name"]] for p in d["tparams"]]
             main.append("    o.pair::<%s, %s>(%d);" % (ty, full + ("<" + ", ".join(inst0) + ">" if inst0 else ""), d["id"]))
